@@ -807,7 +807,33 @@ def call_once(obj, method, a, kw, limit=2, scramble=False):
     for nm, v, b, s in zip(names, vals, before, shown):
         if fp(v) != b:
             mutated.append('%s: %s -> %s' % (nm, show(s) if s is not None else '?', show(v)))
+            _observe(obj, method, nm, len(a))
     return out, mutated
+
+
+# every argument mutation the sweep observes, as (module, qualified name of the function that was called, parameter name): the
+# cross-check of props/c18.py holds them against the generated alias-and-mutation table (Gen/Mutation.v) - a site seen mutated that
+# the table calls Untouched means the static scan is unsound
+OBSERVED_MUTATIONS = []
+
+
+def _observe(obj, method, nm, n_pos):
+    import inspect
+    try:
+        f = inspect.getattr_static(type(obj), method)
+        f = getattr(f, '__func__', f)
+        params = [p for p in inspect.signature(f).parameters.values()]
+        if nm.startswith('arg') and nm[3:].isdigit():
+            i = int(nm[3:]) + (0 if isinstance(inspect.getattr_static(type(obj), method), staticmethod) else 1)
+            pname = params[i].name if i < len(params) and params[i].kind in (params[i].POSITIONAL_ONLY, params[i].POSITIONAL_OR_KEYWORD) else \
+                next((p.name for p in params if p.kind == p.VAR_POSITIONAL), nm)
+        else:
+            pname = nm if any(p.name == nm for p in params) else next((p.name for p in params if p.kind == p.VAR_KEYWORD), nm)
+        rec = (f.__module__, f.__qualname__, pname)
+    except Exception:   # noqa
+        rec = (type(obj).__module__, '%s.%s' % (type(obj).__qualname__, method), nm)
+    if rec not in OBSERVED_MUTATIONS:
+        OBSERVED_MUTATIONS.append(rec)
 
 
 def run_case(key, seed, tmap=None, fresh_only=False):
